@@ -25,7 +25,8 @@ class Def:
         return f"<Def {self.name}@{self.node.id}:{self.kind}>"
 
 
-MUTATORS = {"append", "extend", "add", "update", "insert", "setdefault", "appendleft", "extendleft", "push"}
+MUTATORS = {"append", "extend", "add", "update", "insert", "setdefault", "appendleft", "extendleft", "push",
+            "sort", "reverse", "remove", "pop", "clear", "discard", "popleft", "popitem"}
 
 
 def _names_in_target(t: ast.AST) -> List[ast.Name]:
